@@ -1,13 +1,16 @@
-(* C04 - GameSpy 1/2/3 replies are decoded completely (PARTIAL as theorems).
+(* C04 - GameSpy 1/2/3 replies are decoded completely (GameSpy 2: proved; 1 and 3: PARTIAL as theorems).
 
-   Proved for all inputs: the '\key\value' grammar of GameSpy 1 is decoded
-   exactly, pair by pair and in order, and the GameSpy 3 data request carries
-   the server's challenge. The full statement - for every server state s,
+   The full statement - for every server state s,
      gs1_query / gs2_query / gs3_query on the script of s = Ok (expected s)
-   - is kept below as c04_full_statement_*; it is checked by evaluation on
-   generated states in the correspondence run (Examples here), not proved. *)
+   - is proved for GameSpy 2 (c04_gs2_decoded_completely: every variable, every
+   player and team cell, any column order, unknown columns, unknown variables).
+   For GameSpy 1 and 3 it is kept below as c04_full_statement_*; proved for all
+   inputs there: the '\key\value' grammar of GameSpy 1 is decoded exactly, pair
+   by pair and in order, and the GameSpy 3 data request carries the server's
+   challenge; the rest is checked by evaluation on generated states in the
+   correspondence run (Examples here), not proved. *)
 From GD Require Import Base.Prelude Model.Strings Model.StrOps Model.Buffer Model.Net Model.Valve Model.Gamespy.
-From GD Require Import Spec.Rand Spec.QuakeSpec Spec.GamespySpec Proofs.Str Proofs.GamespyProofs.
+From GD Require Import Spec.Rand Spec.ValveSpec Spec.QuakeSpec Spec.GamespySpec Proofs.Str Proofs.GamespyProofs Proofs.Gamespy2Roundtrip.
 
 Theorem c04_gs1_pairs_partial : forall k v l m,
   Forall (fun kv => no_delim 92 (fst kv) /\ no_delim 92 (snd kv)) ((k, v) :: l) ->
@@ -23,8 +26,34 @@ Theorem c04_gs3_request_carries_challenge_partial : forall port c n,
 Proof. exact gs3_request_bytes. Qed.
 Print Assumptions c04_gs3_request_carries_challenge_partial.
 
+(* ---- GameSpy 2, the full statement ----
+   wf_s2: texts are valid UTF-8 without NUL, numbers fit their Rust types (maxplayers, numplayers,
+   minplayers u32; score, ping, team u16), fewer than 256 players and teams (the row count is one
+   byte), the server's own variables have non-empty names that are pairwise distinct and differ
+   from the six standard ones. *)
+Theorem c04_wf_s2_means : forall s,
+  wf_s2 s = (no_nul (s2_name s) && no_nul (s2_map s) && no_nul (s2_password s) && (s2_max s <? 4294967296)
+             && optb (fun n => n <? 4294967296) (s2_num s) && optb (fun n => n <? 4294967296) (s2_min s)
+             && (forallb kv_ok (s2_extras s)
+                 && forallb (fun kv => negb (existsb (bytes_eqb (fst kv)) std_keys)) (s2_extras s)
+                 && nodupb (map fst (s2_extras s)))
+             && forallb (fun p => no_nul (p2_name p) && (p2_score p <? 65536) && (p2_ping p <? 65536) && (p2_team p <? 65536)) (s2_players s)
+             && (length (s2_players s) <? 256)%nat
+             && forallb (fun t => no_nul (t2_name t) && (t2_score t <? 65536)) (s2_teams s)
+             && (length (s2_teams s) <? 256)%nat).
+Proof. exact (fun s => eq_refl). Qed.
+Print Assumptions c04_wf_s2_means.
+
+Theorem c04_gs2_reply_decoded_completely : forall s, wf_s2 s = true -> gs2_parse (s2_reply s) = Ok (s2_expected s).
+Proof. exact gs2_roundtrip. Qed.
+Print Assumptions c04_gs2_reply_decoded_completely.
+
+Theorem c04_gs2_decoded_completely : forall port s, wf_s2 s = true -> (length (s2_reply s) <= 1024)%nat ->
+  fst (gs2_query port None (net_init (map Datagram [s2_reply s]) [] [])) = Ok (s2_expected s).
+Proof. exact gs2_query_roundtrip. Qed.
+Print Assumptions c04_gs2_decoded_completely.
+
 (* the full statements (not proved; decided per generated state by the check) *)
-Definition script_net (dgs : list bytes) : net := net_init (map Datagram dgs) [] [].
 Definition c04_full_statement_gs1 (s : s1_state) : Prop :=
   fst (gs1_query 7777 None (script_net (s1_script s))) = Ok (s1_expected s).
 Definition c04_full_statement_gs2 (s : s2_state) : Prop :=
